@@ -173,6 +173,40 @@ pub fn run(seed: u64, thorough: bool, out_dir: &std::path::Path, scratch: &std::
                             viol.push(v);
                         }
                     }
+                    // 4c. the acceptance side of the commitment: a child of the tip that is valid in everything
+                    // but its extension (wrong root, no root at all, fewer than 32 bytes) must be rejected
+                    if frng.chance(1, 2) {
+                        let plan = BlockPlan { proposals: vec![], txs: vec![], uncles: vec![], ts_delta: 1 + frng.below(5000), nonce: 0xbad0_0000 + frng.below(1 << 20) as u128 };
+                        let good = build_block_builder(node, &plan).build();
+                        let root: Vec<u8> = good.extension().map(|e| e.raw_data().to_vec()).unwrap_or_default();
+                        let mut variants: Vec<(&'static str, Option<Vec<u8>>)> = vec![];
+                        if root.len() >= 32 {
+                            let mut flipped = root.clone();
+                            let bit = frng.below(256) as usize;
+                            flipped[bit / 8] ^= 1 << (bit % 8);
+                            variants.push(("a root with one bit flipped", Some(flipped)));
+                            if main.len() >= 2 {
+                                // the root over the chain without its tip (what the parent committed to)
+                                variants.push(("the root of a shorter prefix", Some(roots[main.len() - 2].calc_mmr_hash().as_slice().to_vec())));
+                            }
+                            for n in [1usize, 16, 31] { variants.push(("fewer than 32 bytes of the root", Some(root[..n].to_vec()))); }
+                            variants.push(("no extension", None));
+                        }
+                        let v = frng.pick(&variants).clone();
+                        let bad = match &v.1 {
+                            Some(bytes) => { let e: packed::Bytes = ckb_types::bytes::Bytes::from(bytes.clone()).pack(); good.as_advanced_builder().extension(Some(e)).build() }
+                            None => good.as_advanced_builder().extension(None).build(),
+                        };
+                        if bad.hash() != good.hash() {
+                            let tip_before = node.tip().hash();
+                            let r = node.process(&bad);
+                            *stats.entry("bad_extension_children_offered".into()).or_default() += 1;
+                            if r.is_ok() || node.tip().hash() != tip_before {
+                                viol.push(json!({"what": format!("a child of the tip whose extension carries {} ({} bytes) instead of the MMR root over its ancestors was accepted", v.0, v.1.as_ref().map(|b| b.len()).unwrap_or(0)),
+                                                 "detail": {"history": h.jops, "extension": v.1.as_ref().map(|b| hex(b)), "block": hex(bad.data().as_slice())}}));
+                            }
+                        }
+                    }
                     // 5. block filters: built lazily, sometimes only every other change
                     if frng.chance(2, 3) {
                         BlockFilter::new(node.shared.clone()).verif_build_filter_data();
